@@ -15,16 +15,30 @@ facts from C10's theorem:
   exactly the value C10's `gfpMul_asm` shows the assembly to store for `(a, r2)` / `(a, 1)`;
 * `redc_lt_from_c10` — C06/C11's `redc_lt` + `redc_spec` obtained by instantiating C10's `redc_correct`.
 
-NOT composed (reported in design/Compose.md): C10's curve / tower / field model files and
-`Model/Bn256.lean` both declare `Dos.Bn256.p`, `np`, `Fp2`, … — they cannot be imported into one Lean
-environment, so `g2_group_law` (C10) cannot be applied to `Bn256.G2` (C11) without renaming one of them.
+C10's curve / tower / field model files and `Model/Bn256.lean` both declare `Dos.Bn256.p`, `np`, `Fp2`, … —
+they cannot be imported into one Lean environment (design/Compose.md), so C10's `g2_group_law` cannot be
+applied to `Bn256.G2` directly.  The assumption stated at the end of design/C11.md ("the model's G2
+operations preserve `G2.valid`") is discharged instead through Mathlib's group law itself
+(`Proofs/ComposeCurve.lean`: the affine chord/tangent formulas ARE the addition of
+`WeierstrassCurve.Affine.Point`; `Proofs/ComposeFp2.lean`: the model's `Fp2` computes in the field `F_p²`;
+`Proofs/ComposeBn256Group.lean`): second half of this file —
+
+* `g2_valid_closed`, `g2_reachable_valid`, `g2_reachable_roundtrip` — `G2.valid` (reduced ∧ on the twist ∧
+  `r•P = O`) is preserved by neg / double / add / smul; every element reachable from the generator
+  is valid and round-trips;
+* `g1_group_laws`, `g2_group_laws` — on valid elements the MODEL's `add` is commutative and associative,
+  `neg` is the inverse, `smul` is additive in the scalar and (G2, and G1 for reachable elements) depends
+  only on the scalar modulo `r`;
+* `g1_generator_order`, `g1_reachable_torsion` — `r • g₁ = O` by kernel evaluation, hence `r • P = O` for every
+  reachable G1 element (no `#E(F_p) = r` assumption for them).
 -/
 import DosModel.Props.C11
 import DosModel.Proofs.MontRedc
 import DosModel.Gen.Bn256Consts
+import DosModel.Proofs.ComposeBn256Group
 
 namespace Dos.Props.C11Compose
-open Dos Dos.Bn256
+open Dos Dos.Bn256 Dos.Codec
 
 /-- **the two Montgomery reductions are one function**: C06/C11's `redc` (`Model/Bn256.lean`) is C10's
 `Mont.redc` (`Model/Mont.lean`) at the modulus and `np` of the code — definitionally -/
@@ -76,11 +90,134 @@ theorem emitted_word_canonical_from_c10 (a : Nat) (ha : a < Bn256.R) :
   obtain ⟨h1, h2⟩ := redc_lt_from_c10 (a * 1) hT
   exact ⟨h1, h2.trans (by rw [Nat.mul_one])⟩
 
+
+/-! ## the group structure of the model's G1 / G2 -/
+
+/-- **`G2.valid` is closed under the model's operations** (design/C11.md listed this as an assumption) -/
+theorem g2_valid_closed (P Q : G2) (hP : G2.valid P = true) (hQ : G2.valid Q = true) (k : Nat) :
+    G2.valid (G2.neg P) = true ∧ G2.valid (G2.double P) = true ∧ G2.valid (G2.add P Q) = true
+      ∧ G2.valid (G2.smul k P) = true :=
+  ⟨(Compose.valid2_neg P hP).1, (Compose.valid2_double P hP).1, (Compose.valid2_add P Q hP hQ).1,
+    (Compose.valid2_smul k P hP).1⟩
+
+set_option maxRecDepth 100000 in
+/-- the generators: `g₂` is a valid element (on the twist AND of order dividing `r`: 254 doublings
+evaluated by the kernel), `r • g₁ = O` -/
+theorem generators_torsion : G2.valid g2gen = true ∧ G1.smul Bn256.r g1gen = .inf := by
+  constructor <;> decide +kernel
+
+/-- every G2 element obtained from the generator by the operations the library offers is valid … -/
+theorem g2_reachable_valid (P : G2)
+    (h : ∀ (S : G2 → Prop), S g2gen → S .inf → (∀ A, S A → S (G2.neg A)) →
+      (∀ A B, S A → S B → S (G2.add A B)) → (∀ (k : Nat) A, S A → S (G2.smul k A)) → S P) :
+    G2.valid P = true :=
+  h (fun X => G2.valid X = true) generators_torsion.1 rfl
+    (fun A hA => (Compose.valid2_neg A hA).1) (fun A B hA hB => (Compose.valid2_add A B hA hB).1)
+    (fun k A hA => (Compose.valid2_smul k A hA).1)
+
+/-- … and therefore round-trips through `MarshalBinary` / `UnmarshalBinary` (C11 `g2_roundtrip` with
+its validity hypothesis discharged), e.g. every public key `x • g₂` and every sum of such keys -/
+theorem g2_reachable_roundtrip (x y : Nat) (tail : Bytes) :
+    unmarshalG2 (marshalG2 (G2.smul x g2gen) ++ tail) = .ok (G2.smul x g2gen) ∧
+    unmarshalG2 (marshalG2 (G2.add (G2.smul x g2gen) (G2.neg (G2.smul y g2gen))) ++ tail)
+      = .ok (G2.add (G2.smul x g2gen) (G2.neg (G2.smul y g2gen))) := by
+  have hx := (Compose.valid2_smul x g2gen generators_torsion.1).1
+  have hy := (Compose.valid2_smul y g2gen generators_torsion.1).1
+  exact ⟨Props.C11.g2_roundtrip _ hx tail,
+    Props.C11.g2_roundtrip _ (Compose.valid2_add _ _ hx (Compose.valid2_neg _ hy).1).1 tail⟩
+
+/-- **group laws of the model's G2 on valid elements** (inherited from Mathlib's `AddCommGroup` on
+`E'(F_p²)` through the injective map `pt2`): commutative, associative, `neg` inverts, `smul` is additive
+and multiplicative in the scalar and only depends on it modulo `r` -/
+theorem g2_group_laws (P Q R : G2) (hP : G2.valid P = true) (hQ : G2.valid Q = true)
+    (hR : G2.valid R = true) (a b : Nat) :
+    G2.add P Q = G2.add Q P ∧ G2.add (G2.add P Q) R = G2.add P (G2.add Q R)
+    ∧ G2.add P (G2.neg P) = .inf
+    ∧ G2.smul (a + b) P = G2.add (G2.smul a P) (G2.smul b P)
+    ∧ G2.smul (a * b) P = G2.smul a (G2.smul b P)
+    ∧ G2.smul a P = G2.smul (a % Bn256.r) P := by
+  have vadd := fun A B hA hB => Compose.valid2_add A B hA hB
+  have vsm := fun k A hA => Compose.valid2_smul k A hA
+  have hrP : Bn256.r • Compose.pt2 P = 0 :=
+    (Compose.inSubgroup_iff P ((Compose.valid2_iff P).1 hP).2.1).1 ((Compose.valid2_iff P).1 hP).2.2
+  refine ⟨?_, ?_, ?_, ?_, ?_, ?_⟩
+  · apply Compose.pt2_inj (vadd P Q hP hQ).1 (vadd Q P hQ hP).1
+    rw [(vadd P Q hP hQ).2, (vadd Q P hQ hP).2, add_comm]
+  · apply Compose.pt2_inj (vadd _ R (vadd P Q hP hQ).1 hR).1 (vadd P _ hP (vadd Q R hQ hR).1).1
+    rw [(vadd _ R (vadd P Q hP hQ).1 hR).2, (vadd P Q hP hQ).2, (vadd P _ hP (vadd Q R hQ hR).1).2,
+      (vadd Q R hQ hR).2, add_assoc]
+  · have hn := Compose.valid2_neg P hP
+    apply Compose.pt2_inj (vadd P _ hP hn.1).1 (by rfl)
+    rw [(vadd P _ hP hn.1).2, hn.2, add_neg_cancel]; rfl
+  · apply Compose.pt2_inj (vsm _ P hP).1 (vadd _ _ (vsm a P hP).1 (vsm b P hP).1).1
+    rw [(vsm _ P hP).2, (vadd _ _ (vsm a P hP).1 (vsm b P hP).1).2, (vsm a P hP).2, (vsm b P hP).2, add_nsmul]
+  · apply Compose.pt2_inj (vsm _ P hP).1 (vsm a _ (vsm b P hP).1).1
+    rw [(vsm _ P hP).2, (vsm a _ (vsm b P hP).1).2, (vsm b P hP).2, mul_nsmul']
+  · apply Compose.pt2_inj (vsm _ P hP).1 (vsm _ P hP).1
+    rw [(vsm _ P hP).2, (vsm _ P hP).2]
+    conv_lhs => rw [← Nat.div_add_mod a Bn256.r]
+    rw [add_nsmul, mul_nsmul, hrP, nsmul_zero, zero_add]
+
+/-- **group laws of the model's G1 on valid elements** (`valid_add` … of C11 give closure; the laws
+come from `E(F_p)` through `pt1`) -/
+theorem g1_group_laws (P Q R : G1) (hP : G1.valid P = true) (hQ : G1.valid Q = true)
+    (hR : G1.valid R = true) (a b : Nat) :
+    G1.add P Q = G1.add Q P ∧ G1.add (G1.add P Q) R = G1.add P (G1.add Q R)
+    ∧ G1.add P (G1.neg P) = .inf
+    ∧ G1.smul (a + b) P = G1.add (G1.smul a P) (G1.smul b P)
+    ∧ G1.smul (a * b) P = G1.smul a (G1.smul b P) := by
+  have va := fun A B hA hB => valid_add A B hA hB
+  have vs := fun k A hA => valid_smul k A hA
+  refine ⟨?_, ?_, ?_, ?_, ?_⟩
+  · apply Compose.pt1_inj (va _ _ hP hQ) (va _ _ hQ hP)
+    rw [Compose.pt1_add P Q hP hQ, Compose.pt1_add Q P hQ hP, add_comm]
+  · apply Compose.pt1_inj (va _ _ (va _ _ hP hQ) hR) (va _ _ hP (va _ _ hQ hR))
+    rw [Compose.pt1_add _ R (va _ _ hP hQ) hR, Compose.pt1_add P Q hP hQ,
+      Compose.pt1_add P _ hP (va _ _ hQ hR), Compose.pt1_add Q R hQ hR, add_assoc]
+  · apply Compose.pt1_inj (va _ _ hP (valid_neg P hP)) (by rfl)
+    rw [Compose.pt1_add P _ hP (valid_neg P hP), Compose.pt1_neg P hP, add_neg_cancel]; rfl
+  · apply Compose.pt1_inj (vs _ P hP) (va _ _ (vs a P hP) (vs b P hP))
+    rw [Compose.pt1_smul _ P hP, Compose.pt1_add _ _ (vs a P hP) (vs b P hP), Compose.pt1_smul a P hP,
+      Compose.pt1_smul b P hP, add_nsmul]
+  · apply Compose.pt1_inj (vs _ P hP) (vs a _ (vs b P hP))
+    rw [Compose.pt1_smul _ P hP, Compose.pt1_smul a _ (vs b P hP), Compose.pt1_smul b P hP, mul_nsmul']
+
+/-- `r • P = O` for EVERY G1 element reachable from the generator (in particular every signature
+`x • (h • g₁)`): for these no assumption on `#E(F_p)` is needed -/
+theorem g1_reachable_torsion (P : G1) (h : G1.Reachable P) :
+    G1.smul Bn256.r P = .inf ∧ ∀ k, G1.smul k P = G1.smul (k % Bn256.r) P := by
+  have key : ∀ X, G1.Reachable X → Bn256.r • Compose.pt1 X = 0 := by
+    intro X hX
+    induction hX with
+    | base =>
+      rw [← Compose.pt1_smul Bn256.r g1gen (by decide), generators_torsion.2]; rfl
+    | null => exact nsmul_zero _
+    | neg hA ih => rw [Compose.pt1_neg _ (reachable_valid hA), neg_nsmul, ih, neg_zero]
+    | add hA hB ihA ihB =>
+      rw [Compose.pt1_add _ _ (reachable_valid hA) (reachable_valid hB), nsmul_add, ihA, ihB, add_zero]
+    | smul k hA ih => rw [Compose.pt1_smul k _ (reachable_valid hA), nsmul_left_comm, ih, nsmul_zero]
+  have hv := reachable_valid h
+  constructor
+  · apply Compose.pt1_inj (valid_smul _ P hv) (by rfl)
+    rw [Compose.pt1_smul _ P hv, key P h]; rfl
+  · intro k
+    apply Compose.pt1_inj (valid_smul _ P hv) (valid_smul _ P hv)
+    rw [Compose.pt1_smul _ P hv, Compose.pt1_smul _ P hv]
+    conv_lhs => rw [← Nat.div_add_mod k Bn256.r]
+    rw [add_nsmul, mul_nsmul, key P h, nsmul_zero, zero_add]
+
 /-! non-vacuity -/
 example : Bn256.redc (Bn256.R * Bn256.p - 1) = Mont.redc Bn256.p Bn256.np (Bn256.R * Bn256.p - 1) :=
   redc_is_c10_redc _
 example : montEncode 2 = Mont.mulM Bn256.p Bn256.np 2 Bn256.r2 := montEncode_is_gfpMul 2 (by decide)
 example : montDecode (montEncode 2) < Bn256.p :=
   (emitted_word_canonical_from_c10 _ (Nat.lt_trans (Dos.Bn256.montEncode_lt 2 (by decide)) (by decide))).1
+
+example : G2.valid (G2.add (G2.smul 5 g2gen) (G2.neg g2gen)) = true :=
+  (g2_valid_closed _ _ (g2_valid_closed g2gen g2gen generators_torsion.1 generators_torsion.1 5).2.2.2
+    (g2_valid_closed g2gen g2gen generators_torsion.1 generators_torsion.1 0).1 0).2.2.1
+example : G1.smul (Bn256.r + 7) g1gen = G1.smul 7 g1gen := by
+  rw [(g1_reachable_torsion g1gen .base).2 (Bn256.r + 7)]
+  congr 1
 
 end Dos.Props.C11Compose
